@@ -114,3 +114,96 @@ impl TimerRuntime {
         }
     }
 }
+
+/// Verification hooks. Compiled only with `--cfg compio_verif`; nothing here is
+/// used by the crate itself. Thin forwarding shims that let an external harness
+/// drive the timer wheel above and read its content.
+#[cfg(compio_verif)]
+#[doc(hidden)]
+pub mod verif {
+    use std::{
+        task::{Context, Poll, Waker},
+        time::{Duration, Instant},
+    };
+
+    use super::{TimerKey, TimerRuntime};
+
+    /// A [`TimerKey`] handed out by [`Wheel::insert`].
+    #[derive(Debug, Clone, Copy, PartialEq, Eq)]
+    pub struct Key(TimerKey);
+
+    impl Key {
+        pub fn deadline(&self) -> Instant {
+            self.0.deadline
+        }
+
+        pub fn generation(&self) -> u64 {
+            self.0.generation
+        }
+    }
+
+    /// The timer wheel itself.
+    #[derive(Debug)]
+    pub struct Wheel(TimerRuntime);
+
+    fn entries_of(rt: &TimerRuntime) -> Vec<(Instant, u64, Option<Waker>)> {
+        rt.wheel
+            .iter()
+            .map(|(k, w)| (k.deadline, k.generation, w.clone()))
+            .collect()
+    }
+
+    impl Wheel {
+        pub fn new() -> Self {
+            Wheel(TimerRuntime::new())
+        }
+
+        pub fn insert(&mut self, deadline: Instant) -> Option<Key> {
+            self.0.insert(deadline).map(Key)
+        }
+
+        pub fn update_waker(&mut self, key: &Key, waker: &Waker) {
+            self.0.update_waker(&key.0, waker)
+        }
+
+        pub fn cancel(&mut self, key: &Key) {
+            self.0.cancel(&key.0)
+        }
+
+        pub fn min_timeout(&self) -> Option<Duration> {
+            self.0.min_timeout()
+        }
+
+        pub fn wake(&mut self) {
+            self.0.wake()
+        }
+
+        pub fn is_completed(&self, key: &Key) -> bool {
+            self.0.is_completed(&key.0)
+        }
+
+        pub fn poll_timer(&mut self, cx: &mut Context<'_>, key: &Key) -> Poll<()> {
+            self.0.poll_timer(cx, &key.0)
+        }
+
+        /// The generation the next inserted timer gets.
+        pub fn generation(&self) -> u64 {
+            self.0.generation
+        }
+
+        /// Start the generation counter somewhere else (to reach its end).
+        pub fn set_generation(&mut self, generation: u64) {
+            self.0.generation = generation
+        }
+
+        /// Content of the wheel in key order: deadline, generation, waker.
+        pub fn entries(&self) -> Vec<(Instant, u64, Option<Waker>)> {
+            entries_of(&self.0)
+        }
+    }
+
+    /// Content of the timer wheel of a [`Runtime`](crate::Runtime).
+    pub fn runtime_entries(rt: &crate::Runtime) -> Vec<(Instant, u64, Option<Waker>)> {
+        entries_of(&rt.timer_runtime.borrow())
+    }
+}
